@@ -254,8 +254,13 @@ def run_multi(case, grammars, classes):
         if case.get("builtins"):
             from textx.scoping import ModelRepository
             repo_b = ModelRepository()
-            for f in case["builtins"]:
-                repo_b.add_model(mm.model_from_file(os.path.join(d, f)))
+            try:
+                for f in case["builtins"]:
+                    repo_b.add_model(mm.model_from_file(os.path.join(d, f)))
+            except Exception as e:  # noqa: BLE001  (a builtin model that does not load is an outcome of the case, not a crash of the runner)
+                res["error"] = {"msg": "builtin model: " + getattr(e, "message", str(e)).replace(d, "<dir>"), "line": getattr(e, "line", None),
+                                "col": getattr(e, "col", None), "type": type(e).__name__}
+                return res
             mm.builtin_models = repo_b
         try:
             main = mm.model_from_file(os.path.join(d, case["main"]))
